@@ -822,9 +822,23 @@ func (m *Model) applyPull1(c Call, o Obs) []Hit {
 		return nil
 	}
 	if o.Err != "" {
-		return []Hit{hit("pull-failed", pC01, "Pull on live subscription %s failed: %s", c.Op.Sub, o.Err)}
+		props := pC01
+		if c.Op.Tgt == "wait" {
+			// a blocking pull that fails / spins instead of waiting for the next
+			// lease end, retention end or delay end
+			props = []string{"C01", "C04", "C10", "C14"}
+		}
+		return []Hit{hit("pull-failed", props, "Pull%s on live subscription %s failed: %s", c.Op.Tgt, c.Op.Sub, o.Err)}
 	}
 	call := o.Call()
+	wait := c.Op.Tgt == "wait"
+	start := call
+	if wait {
+		// a blocking pull answers at the instant something became deliverable (or at
+		// its own time-out): judge what it returned at the RETURN instant
+		call = Iv{o.T1.Add(-time.Millisecond), o.T1}
+		start = Iv{o.T0, o.T0}
+	}
 	m.touch(s, call)
 	var hits []Hit
 	if len(o.Msgs) > c.Op.Max {
@@ -927,6 +941,34 @@ func (m *Model) applyPull1(c Call, o Obs) []Hit {
 				nDL++
 			}
 		}
+	}
+	if wait {
+		// a delivery that had to be deliverable clearly BEFORE the pull returned
+		// (and was not blocked, expired or retired) must be in the answer; the
+		// 59 s default time-out bounds the wait
+		for i, d := range s.Dels {
+			if seen[i] || d.State != Outstanding {
+				continue
+			}
+			stStart, _ := m.status(s, i, start)
+			by := d.Due.Hi
+			if by.Before(o.T0) {
+				by = o.T0
+			}
+			if stStart == Must || (by.Add(300*time.Millisecond).Before(o.T1) && rel(Iv{by, by.Add(300 * time.Millisecond)}, d.Exp) == Before && st[i] != No) {
+				if m.hasDL(s) && d.Attempts >= s.Cfg.MaxAttempts {
+					continue
+				}
+				if len(o.Msgs) == 0 {
+					hits = append(hits, hit("wait-missed", append(pC01, "C04", "C10"), "blocking Pull(%s) returned nothing at %v after its start although message %s had to be deliverable %v before that", c.Op.Sub, o.T1.Sub(o.T0), m.Msgs[d.Msg].ID, o.T1.Sub(by)))
+				}
+				break
+			}
+		}
+		if len(o.Msgs) == 0 && o.T1.Sub(o.T0) < 58*time.Second {
+			hits = append(hits, hit("wait-early-empty", []string{"C10"}, "blocking Pull(%s) returned empty after only %v", c.Op.Sub, o.T1.Sub(o.T0)))
+		}
+		return hits
 	}
 	// liveness: something that must be deliverable ⇒ the pull did something
 	if len(o.Msgs) == 0 && nDL == 0 {
